@@ -36,6 +36,12 @@ def main() -> int:
         os.makedirs(od, exist_ok=True)
         sh(f"git -C /repo worktree remove --force {wtd} 2>/dev/null; git -C /repo worktree add --detach {wtd} HEAD")
         assert os.path.isdir(os.path.join(wtd, "src")), wtd
+        extra = ("* Round 3 focus - prefer changes of these kinds, as long as the property still holds: different handling (exception type, "
+                 "early return, logging, retry, restart, closing of channels) of situations the property does NOT quantify over; extra "
+                 "internal tasks, caches or bookkeeping that are invalidated correctly; a different moment at which unconstrained side "
+                 "outputs (reports, status notifications, logs, results on other channels) are produced; cancellation and shutdown paths; "
+                 "pure getters/status queries that compute more or less eagerly. Do NOT make anything raise, hang or lose data for "
+                 "inputs and schedules the property does quantify over.") if wave >= 3 else ""
         text = f"""You are helping to evaluate a verification effort for the open-source Python project frequenz-floss/frequenz-sdk-python (an asyncio SDK for energy microgrids). You have your own scratch git worktree of the repository at {wtd} (detached HEAD; work ONLY there; never touch /repo or /verif, never read anything under /verif).
 
 Below is one semantic property the code base satisfies. Your job is the OPPOSITE of fault seeding: produce TWO different, non-trivial source changes (call them "a" and "b") to the library code under {wtd}/src, in or around the files the property is anchored in, that a maintainer could plausibly make and that do NOT break the property - the property (exactly as stated, for everything it quantifies over) must still hold after each change. The purpose is to find out whether a property checker raises FALSE ALARMS on legitimate code evolution, so the changes should go as far as the property allows:
@@ -61,6 +67,7 @@ ADDITIONAL INSTRUCTIONS FOR THIS ROUND
 * This is round {wave}. {len(earlier)} benign changes were already produced for this property; do not repeat them. Their summaries:
 {chr(10).join(earlier)}
 * This round, at least one of your two changes must change OBSERVABLE behaviour that the property leaves open (first bullet above), not only the internal structure.
+{extra}
 
 Finish with a short summary (5-15 lines) of the two changes and why each preserves the property.
 """
